@@ -33,6 +33,9 @@ namespace sim { namespace aux {
 		std::string label() const override;
 		void reset(sink* s = nullptr);
 
+		// the sink packets are currently forwarded to, or nullptr if detached
+		sink* destination() const { return m_dst; }
+
 	private:
 		sink* m_dst;
 	};
